@@ -119,8 +119,19 @@ func sfuScenario(r *hutil.Rng, i int, stream string) (atrun.Scenario, Meta) {
 		meta.Extra["locks_pre"] = fmt.Sprintf("%d.%d", len(steps), len(body))
 		body = append(body, atrun.Step{Op: "db_locks"})
 	}
+	spelled := t.name
+	if r.Chance(1, 3) {
+		spelled = caseVariant(r, t.name)
+		if r.Chance(1, 2) {
+			body = append(body, atrun.Step{Op: "meta_refresh"})
+			if explicit {
+				meta.Extra["locks_pre"] = fmt.Sprintf("%d.%d", len(steps), len(body))
+				body = append(body, atrun.Step{Op: "db_locks"})
+			}
+		}
+	}
 	sm.Path = fmt.Sprintf("%d.%d", len(steps), len(body))
-	body = append(body, atrun.Step{Op: "query", Conn: conn, SQL: "SELECT * FROM " + t.name + " WHERE " + where + " FOR UPDATE", Args: b.args})
+	body = append(body, atrun.Step{Op: "query", Conn: conn, SQL: "SELECT * FROM " + spelled + " WHERE " + where + " FOR UPDATE", Args: b.args})
 	if explicit {
 		meta.Extra["locks_post"] = fmt.Sprintf("%d.%d", len(steps), len(body))
 		body = append(body, atrun.Step{Op: "db_locks"})
